@@ -429,6 +429,11 @@ pub fn parse(b: &[u8]) -> Parsed {
 pub struct Config {
     /// zone origins, lower case
     pub zones: Vec<Labels>,
+    /// per zone: the statement does not fix what a query enclosed by this zone gets (a forwarder
+    /// zone refuses RD=0, a handler chain in which nobody answers gives SERVFAIL, a handler may
+    /// break the chain with its own error code): one response, id, QR and question are still
+    /// judged, and data identifying ANOTHER zone is still a violation
+    pub unjudged: Vec<bool>,
     pub deny: Vec<Net>,
     pub allow: Vec<Net>,
 }
@@ -619,11 +624,17 @@ pub fn expect(cfg: &Config, src: IpAddr, b: &[u8]) -> Expect {
     if opcode == 0 && p.class != ParseClass::Bad {
         if let Some(q) = &p.question {
             e.zone = longest_suffix_zone(&cfg.zones, &q.name);
+            if let Some(zi) = e.zone {
+                if cfg.unjudged.get(zi).copied().unwrap_or(false) {
+                    e.tolerated.push("zone-answer-unjudged");
+                    normal_any = true;
+                }
+            }
             if e.zone.is_none() {
                 e.gates.push("no-enclosing-zone");
                 gate_codes.push(REFUSED);
             }
-            e.plain = q.qclass == 1 && matches!(q.qtype, 1 | 2 | 6 | 15 | 16 | 28);
+            e.plain = q.qclass == 1 && matches!(q.qtype, 1 | 2 | 6 | 15 | 16 | 28) && !e.tolerated.contains(&"zone-answer-unjudged");
         }
     }
     let mut set = RcodeSet { any, mask: 0 };
